@@ -196,8 +196,8 @@ def rule_round_trip(ctx, repo):
         except SyntaxError:
             continue
         want = requests(old)
-        if not want:
-            continue
+        if not want or not any(k_[0] == name for k_ in TABLE):
+            continue  # methods without an amount / hash / transaction crossing are not what the property talks about
         got = requests(fi.node)
         key = 'sent:%s' % name
         if set(got) == set(want):
